@@ -1,5 +1,6 @@
 import MioModel.Lemmas.Net
 import MioModel.Lemmas.NodeOrder
+import MioModel.Udp
 /-! # C03 — Connection lifecycle events follow one well-formed sequence per endpoint
 
 Model M5 (`MioModel/Net.lean`): every theorem is about all states reachable by any schedule of user
@@ -417,6 +418,23 @@ theorem is_ready_none_iff (s s1 : St) (id : Nat) (hf : Fresh s) (h1 : step s (.i
     simp only [Option.some.injEq] at h1; subst h1
     simp [record, hmem]
 
+
+/-- the hypotheses of `udp_lifecycle` about the adapter are what the Udp adapter (model M8, transcribed
+from `adapters/udp.rs`) does: `pending` answers Ready, and `receive` never reports a disconnection,
+whatever `recv` answers — datagrams, `WouldBlock`, a pending ICMP `ConnectionRefused` or any other error -/
+theorem udp_adapter_contract (i : Nat) (k : Mio.Udp.Kind) (answers : List Mio.Udp.RecvAns) :
+    Mio.Udp.remotePending = .ready ∧ (Mio.Udp.remoteReceive i k answers).2 = .waitNextEvent := by
+  refine ⟨rfl, ?_⟩
+  induction answers with
+  | nil => rfl
+  | cons a rest ih => cases a <;> simp [Mio.Udp.remoteReceive, ih]
+
+/-- and on a queue of datagrams followed by `WouldBlock` that loop is the `recvLoop` of M8 -/
+theorem udp_remoteReceive_is_recvLoop (i : Nat) (k : Mio.Udp.Kind) (q : List Mio.Udp.Dgram) :
+    (Mio.Udp.remoteReceive i k (q.map .dgram ++ [.wouldBlock])).1 = Mio.Udp.recvLoop i k q := by
+  induction q with
+  | nil => rfl
+  | cons d q ih => simp [Mio.Udp.remoteReceive, Mio.Udp.recvLoop, ih]
 
 /-! ## Through the node's dispatch layer (for_each, for_each_async, enqueue)
 
